@@ -30,9 +30,35 @@ type poolExec struct {
 	clearIf     *ssa.If
 	prepare     *ssa.Call
 	multi       bool
-	deferI      *ssa.Defer
+	deferI      *ssa.Defer // the defer that hands the wrapper back (a literal doing it, or `defer gp.putGengineLocked(gw)`)
 	deferLit    *ssa.Function
+	defers      []*ssa.Defer
 	engineCalls []*ssa.Call
+}
+
+// deferredCall: a call the method has deferred: inside a deferred literal, or the deferred call itself.
+type deferredCall struct {
+	in  ssa.Instruction
+	cc  *ssa.CallCommon
+	d   *ssa.Defer
+	lit *ssa.Function
+}
+
+func (p *poolExec) deferredCalls() []deferredCall {
+	var out []deferredCall
+	for _, d := range p.defers {
+		if mc, ok := d.Call.Value.(*ssa.MakeClosure); ok {
+			lit := mc.Fn.(*ssa.Function)
+			eachInstr(lit, func(in ssa.Instruction) {
+				if call, ok := in.(*ssa.Call); ok {
+					out = append(out, deferredCall{in, &call.Call, d, lit})
+				}
+			})
+			continue
+		}
+		out = append(out, deferredCall{d, &d.Call, d, nil})
+	}
+	return out
 }
 
 func (c *Ctx) poolModel(fn *ssa.Function) *poolExec {
@@ -52,12 +78,22 @@ func (c *Ctx) poolModel(fn *ssa.Function) *poolExec {
 				p.engineCalls = append(p.engineCalls, t)
 			}
 		case *ssa.Defer:
-			if mc, ok := t.Call.Value.(*ssa.MakeClosure); ok {
-				p.deferI = t
-				p.deferLit = mc.Fn.(*ssa.Function)
-			}
+			p.defers = append(p.defers, t)
 		}
 	})
+	// the defer that hands the wrapper back; a deferred literal otherwise (so that its absence is reported there)
+	for _, dc := range p.deferredCalls() {
+		if fnIs(dc.cc.StaticCallee(), pEngine, "GenginePool", "putGengineLocked") {
+			p.deferI, p.deferLit = dc.d, dc.lit
+		}
+	}
+	if p.deferI == nil {
+		for _, d := range p.defers {
+			if mc, ok := d.Call.Value.(*ssa.MakeClosure); ok {
+				p.deferI, p.deferLit = d, mc.Fn.(*ssa.Function)
+			}
+		}
+	}
 	return p
 }
 
@@ -161,53 +197,60 @@ func (c *Ctx) ruleLifecycle(rule string, want map[string]bool) {
 			lp = hit.Pos()
 		}
 		chk("release-deferred", !leak, lp, "after a successful acquire the deferred release must be registered before anything else runs or returns")
-		// the deferred literal: clear exactly the injected keys, then put the same wrapper
-		lit := p.deferLit
-		var clr, put ssa.Instruction
+		// what is deferred: clear exactly the injected keys, then put the same wrapper — in one
+		// deferred literal, or as two deferred calls registered in the opposite order
+		var clr, put *deferredCall
 		nPut := 0
 		clrOK := false
-		eachInstr(lit, func(in ssa.Instruction) {
-			call, ok := in.(*ssa.Call)
-			if !ok {
-				return
-			}
+		dcs := p.deferredCalls()
+		for i := range dcs {
+			dc := &dcs[i]
+			cal := dc.cc.StaticCallee()
 			switch {
-			case calleeIs(call, pEngine, "gengineWrapper", "clearInjected"):
-				clr = call
+			case fnIs(cal, pEngine, "gengineWrapper", "clearInjected"):
+				clr = dc
 				// receiver is gw; keys = getKeys(data) with the data given to prepareWithMultiInput
-				if p.multi && p.isGw(call.Call.Args[0]) && len(call.Call.Args) == 2 {
-					if kc, ok := x.Origin(call.Call.Args[1]).(*ssa.Call); ok && calleeIs(kc, pEngine, "", "getKeys") {
+				if p.multi && p.isGw(dc.cc.Args[0]) && len(dc.cc.Args) == 2 {
+					if kc, ok := x.Origin(dc.cc.Args[1]).(*ssa.Call); ok && calleeIs(kc, pEngine, "", "getKeys") {
 						if x.sameValue(kc.Call.Args[0], p.prepare.Call.Args[1]) {
 							clrOK = true
 						}
 					}
 				}
-			case calleeIs(call, pContext, "DataContext", "Del"):
-				clr = call
+			case fnIs(cal, pContext, "DataContext", "Del"):
+				clr = dc
 				// receiver gw.rulebuilder.Dc; keys = the two names given to prepare
-				if !p.multi && len(call.Call.Args) == 2 {
-					if b, ok := x.isFieldLoad(call.Call.Args[0], "RuleBuilder", "Dc"); ok && p.isGwField(b, "rulebuilder") {
-						keys := x.variadicElems(call.Call.Args[1])
+				if !p.multi && len(dc.cc.Args) == 2 {
+					if b, ok := x.isFieldLoad(dc.cc.Args[0], "RuleBuilder", "Dc"); ok && p.isGwField(b, "rulebuilder") {
+						keys := x.variadicElems(dc.cc.Args[1])
 						if len(keys) == 2 && x.sameValue(keys[0], p.prepare.Call.Args[1]) && x.sameValue(keys[1], p.prepare.Call.Args[3]) {
 							clrOK = true
 						}
 					}
 				}
-			case calleeIs(call, pEngine, "GenginePool", "putGengineLocked"):
-				put = call
+			case fnIs(cal, pEngine, "GenginePool", "putGengineLocked"):
+				put = dc
 				nPut++
 			}
-		})
+		}
 		chk("clears-own-keys", clr != nil && clrOK, p.deferI.Pos(), "the deferred function must delete exactly the keys this request injected (same data / same names as given to prepare) from the wrapper's own data context")
 		putOK := false
 		if put != nil {
-			pc := put.(*ssa.Call)
-			putOK = p.isGw(pc.Call.Args[1]) && x.Origin(pc.Call.Args[0]) == ssa.Value(fn.Params[0])
+			putOK = p.isGw(put.cc.Args[1]) && x.Origin(put.cc.Args[0]) == ssa.Value(fn.Params[0])
 		}
-		// no other hand-back outside the deferred function (an early release plus the deferred one puts the wrapper twice)
+		// no other hand-back outside the deferred code (an early release plus the deferred one puts the wrapper twice)
 		nOutside := 0
+		isDeferLit := map[*ssa.Function]bool{}
+		for _, dc := range dcs {
+			if dc.lit != nil {
+				isDeferLit[dc.lit] = true
+			}
+		}
 		eachInstrDeep(fn, func(g *ssa.Function, in ssa.Instruction) {
-			if g == lit {
+			if isDeferLit[g] {
+				return
+			}
+			if _, isD := in.(*ssa.Defer); isD && g == fn {
 				return
 			}
 			if cc := callCommon(in); cc != nil && fnIs(cc.StaticCallee(), pEngine, "GenginePool", "putGengineLocked") {
@@ -218,13 +261,27 @@ func (c *Ctx) ruleLifecycle(rule string, want map[string]bool) {
 			putOK = false
 		}
 		chk("puts-own-wrapper", putOK && nPut == 1, p.deferI.Pos(), "the wrapper this request acquired must be handed back to this pool exactly once, by the deferred function only")
-		order := clr != nil && put != nil && domInstr(clr, put) && nPut == 1
+		order := clr != nil && put != nil && nPut == 1
 		if order {
-			_, twice := pathExists(lit, put, func(in ssa.Instruction) bool {
-				call, ok := in.(*ssa.Call)
-				return ok && calleeIs(call, pEngine, "GenginePool", "putGengineLocked")
-			}, nil)
-			order = !twice
+			if clr.lit != nil && clr.lit == put.lit {
+				order = domInstr(clr.in, put.in)
+				if order {
+					_, twice := pathExists(clr.lit, put.in, func(in ssa.Instruction) bool {
+						call, ok := in.(*ssa.Call)
+						return ok && calleeIs(call, pEngine, "GenginePool", "putGengineLocked")
+					}, nil)
+					order = !twice
+				}
+			} else {
+				// two defers run in the reverse order of their registration: the hand-back is
+				// registered first, the clearing after it — and before any rule runs
+				order = clr.d != put.d && domInstr(put.d, clr.d)
+				for _, ec := range p.engineCalls {
+					if !domInstr(clr.d, ec) {
+						order = false
+					}
+				}
+			}
 		}
 		chk("clear-before-put", order, p.deferI.Pos(), "the request's data must be deleted before the wrapper is handed back (once)")
 		// P5: engine calls run on the acquired wrapper's engine with its own rule builder
@@ -286,6 +343,13 @@ func (c *Ctx) ruleLifecycle(rule string, want map[string]bool) {
 
 // variadicElems returns the elements of a variadic argument built from a fresh array.
 func (x *FnIndex) variadicElems(v ssa.Value) []ssa.Value {
+	v = x.Origin(v)
+	// append(lit, more...)...: the elements of the literal come first
+	if call, isCall := v.(*ssa.Call); isCall {
+		if args, isApp := builtinCall(call, "append"); isApp && len(args) >= 1 {
+			return x.variadicElems(args[0])
+		}
+	}
 	sl, ok := v.(*ssa.Slice)
 	if !ok {
 		return nil
@@ -625,6 +689,37 @@ func (c *Ctx) ruleFreeLists(rule string) {
 		}
 		if len(x.Loops(get)) == 0 {
 			c.Check(rule, "getGengine#waits", false, get.Pos(), "getGengine has no wait loop: a request that finds all engines busy cannot wait")
+		}
+		// a request goes round again only after it has found both lists empty: a way back to the head
+		// of the wait loop that has not looked at a list can leave a free instance unused for ever
+		for _, l := range x.Loops(get) {
+			if c.Prop != "C17" {
+				break // a capacity matter: not part of the exclusive hand-out (C06)
+			}
+			head := l.Head.Instrs[0]
+			for _, lname := range []string{"freeGengines", "additionGengines"} {
+				empty := map[edgeKey]bool{}
+				eachInstr(get, func(in ssa.Instruction) {
+					iff, isIf := in.(*ssa.If)
+					if !isIf || !l.Blocks[iff.Block()] {
+						return
+					}
+					arg, ne, ok := x.lenCmpO(iff.Cond)
+					if !ok {
+						return
+					}
+					if _, is := x.isFieldLoad(arg, "GenginePool", lname); !is {
+						return
+					}
+					if ne {
+						empty[edgeKey{iff.Block(), 1}] = true
+					} else {
+						empty[edgeKey{iff.Block(), 0}] = true
+					}
+				})
+				_, again := x.pathExistsFlags(get, head, func(in ssa.Instruction) bool { return in == head }, empty, func(in ssa.Instruction) bool { return !l.Blocks[in.Block()] })
+				c.Check(rule, "getGengine#retries-only-after-"+lname+"-was-empty", len(empty) > 0 && !again, head.Pos(), "a pass of the wait loop can end without having found %s empty (%d test(s) of its length in the loop): a request could keep waiting while an instance is free", lname, len(empty))
+			}
 		}
 	}
 	put := c.MustFn(rule, "engine", "GenginePool", "putGengineLocked")
